@@ -488,12 +488,7 @@ func runOne(r *driver.Run) {
 			r.ObsInts(got.orbits)
 			r.Logf("   -> %s", got)
 		}
-		if classes != nil {
-			// every oracle applies; a failure is attributed to the vertex-class argument
-			r.Scoped("vertex-classes", "request with non-nil vertex classes", body)
-		} else {
-			body()
-		}
+		body()
 		_ = skip
 		prev = g
 	}
